@@ -249,6 +249,11 @@ class Check:
             return 1
         if os.path.exists(replay_path):
             os.remove(replay_path)
+        if thorough_extra and thorough_extra.get('_selftest_error'):
+            # a defect of the checker, not of /repo
+            print(f'ANALYSIS-ERROR property={self.prop}: '
+                  f'{thorough_extra["_selftest_error"]}')
+            return 2
         return 0
 
 
